@@ -378,6 +378,7 @@ package nutsdb
 //@ func Tx.buildBPTreeIdx
 //@   requires tx != nil && tx.db != nil && tx.db.ActiveFile != nil && entry != nil && entry.Meta != nil && tx.db.BPTreeIdx != nil
 //@   requires tx.db.opt.EntryIdxMode == HintBPTSparseIdxMode ==> tx.db.ActiveBPTreeIdx != nil
+//@   requires[C14] lockMode == 2
 //@   at entry: bump idxMut
 //@   ensures idxMut == old(idxMut) + 1
 //@   ensures[C04] forall b string :: b != bucket ==> has(tx.db.BPTreeIdx, b) == old(has(tx.db.BPTreeIdx, b)) && tx.db.BPTreeIdx[b] == old(tx.db.BPTreeIdx[b])
@@ -388,6 +389,7 @@ package nutsdb
 //@ func Tx.buildIdxes
 //@   assumed applies the set / sorted-set / list records of the transaction to the in-memory indexes (appliers are under contract separately)
 //@   requires tx != nil && tx.db != nil
+//@   requires[C14] lockMode == 2
 //@   ensures writesLen > 0 ==> idxMut > old(idxMut)
 //@   ensures tx.db.KeyCount == old(tx.db.KeyCount) + writesLen
 //@   modifies tx.db.KeyCount, entries(tx.db.SetIdx), entries(tx.db.ListIdx), entries(tx.db.SortedSetIdx), alltype(list.List), alltype(set.Set), alltype(zset.SortedSet), idxMut
@@ -403,7 +405,7 @@ package nutsdb
 
 //@ func Tx.Commit
 //@   requires tx != nil && (tx.db != nil ==> dbOK(tx.db) && pendingOK(tx) && tx.ReservedStoreTxIDIdxes != nil)
-//@   requires tx.db != nil ==> (tx.writable ==> lockMode == 2) && (!tx.writable ==> lockMode == 1)
+//@   requires tx.db != nil ==> (tx.writable ==> lockMode == 2) && (!tx.writable ==> lockMode == 1) && (len(tx.pendingWrites) > 0 ==> tx.writable)
 //@   requires tx.db != nil && tx.db.opt.SyncEnable ==> unsynced == 0
 //@   requires tx.db != nil && tx.db.opt.EntryIdxMode == HintBPTSparseIdxMode ==> tx.db.ActiveBPTreeIdx != nil && tx.db.ActiveCommittedTxIdsIdx != nil && tx.db.bucketMetas != nil
 //@   ensures[C12,C20] old(tx.db) == nil ==> result == ErrDBClosed
